@@ -11,7 +11,7 @@ from __future__ import annotations
 import random
 from typing import Dict, List, Optional, Tuple
 
-from ..core import RunResult, ScenarioInvalid, digest_of, jhash, tree_digest, weighted
+from ..core import CleanArmFailed, RunResult, ScenarioInvalid, digest_of, jhash, tree_digest, weighted
 from ..gen_akai import gen_sample as akai_sample, gen_program as akai_program
 from ..gen_roland import gen_sample as roland_sample
 from ..model import akai as A
@@ -236,16 +236,16 @@ def run(sc: dict) -> RunResult:
         clean, sf0, s0 = _observe(img, None, lspath, sb, "clean", 2_000_000_000)
         res.steps += s0
         if clean["open_exc"] or clean["ls"] is None or clean["er"].exc:
-            raise ScenarioInvalid("clean arm failed: %s %s %s" % (clean["open_exc"], clean["ls_exc"], clean["er"].exc))
+            raise CleanArmFailed("clean arm failed: %s %s %s" % (clean["open_exc"], clean["ls_exc"], clean["er"].exc))
         clean_rows = clean["ls"]
         # the rows of the siblings in the clean listing (by name)
         want_rows = [r for r in clean_rows if r[0] in sib_names.values()]
         if len(want_rows) != len(sib_names):
-            raise ScenarioInvalid("clean listing does not show every sibling by its stored name")
+            raise CleanArmFailed("clean listing does not show every sibling by its stored name")
         clean_channels = _channels(clean["er"], prefix)
         for i, pcm in sib_pcm.items():
             if pcm not in clean_channels:
-                raise ScenarioInvalid("clean arm does not export sibling %r completely" % sib_names[i])
+                raise CleanArmFailed("clean arm does not export sibling %r completely" % sib_names[i])
         budget = 5_000_000 + 50 * s0
         seen = set()
         for n, fault in enumerate(sc["faults"]):
